@@ -1,7 +1,17 @@
 (* Faithful model of the converters of mcp/eject.py (and their CLI copies): _ast_to_dict, _convert_block,
    _convert_value, _format_markdown_value, _ast_to_markdown, _block_to_markdown.
    JSON / YAML serialisation of the resulting dict is TRUSTED (the harness parses the output back).
-   Consumes Gen/ProjectorGen.v: handled node classes, isinstance order of _convert_value, zone export keys. *)
+   Consumes Gen/ProjectorGen.v: handled node classes, isinstance order of _convert_value, zone export keys.
+
+   Since repair 88905cd (eject.py): _convert_value has a HolographicValue case (-> value.raw_pattern, a str) and a
+   dict case (nested META block, converted recursively); _format_markdown_value has the same two cases.
+   A nested META block (a Python dict built by parse_meta_block) is represented by VMap like an InlineMap: the two are
+   converted by the same expression once class 5 is present, which ProjFacts.convert_value_classes_pin requires and
+   the translator checks case by case (the body of every isinstance case must be the expression modelled here).
+   The CLI copies (cli/main.py) have NEITHER case (and no literal-zone case): HolographicValue / LiteralZoneValue
+   objects reach the serialiser (JHolo / JZoneObj); the CLI model is NOT faithful on a nested META block that holds
+   non-native values (class 5 absent there: the dict passes through unconverted) -- the harness never compares the
+   CLI with the model, it compares it with the tool. *)
 From OV Require Import Proj.Ast Gen.ProjectorGen.
 From Coq Require Import ZArith.
 Open Scope N_scope.
@@ -11,7 +21,7 @@ Inductive jv :=
 | JNull | JBool (b : bool) | JInt (z : Z) | JFloat (r : str) | JStr (s : str)
 | JList (l : list jv)
 | JMap (m : list (str * jv))                  (* dict, insertion order *)
-| JHolo (raw : str)                           (* a HolographicValue object passed through unconverted *)
+| JHolo (raw : str)                           (* a HolographicValue object passed through unconverted (CLI copy) *)
 | JZoneObj (c : str) (t : option str) (f : str).   (* a LiteralZoneValue object passed through (CLI copy) *)
 
 (* d[k] = v on an insertion-ordered dict *)
@@ -35,11 +45,11 @@ Definition zone_field (expr : str) (c : str) (t : option str) (f : str) : jv :=
 Definition zone_export (c : str) (t : option str) (f : str) : jv :=
   JMap (dict_of (map (fun ke => (fst ke, zone_field (snd ke) c t f)) convert_zone_keys)).
 
-(* _convert_value; `classes` = isinstance cases present (eject.py: [1;2;3], CLI copy: [2;3]) *)
+(* _convert_value; `classes` = isinstance cases present (eject.py: [1;2;3;4;5], CLI copy: [2;3]) *)
 Fixpoint convert_value (classes : list N) (v : value) : jv :=
   match v with
   | VNull => JNull | VBool b => JBool b | VInt z => JInt z | VFloat r => JFloat r | VStr s => JStr s
-  | VHolo r => JHolo r
+  | VHolo r => if memb 4 classes then JStr r else JHolo r
   | VZone c t f => if memb 1 classes then zone_export c t f else JZoneObj c t f
   | VList l => if memb 2 classes then JList (map (convert_value classes) l) else JNull
   | VMap m => if memb 3 classes
@@ -92,12 +102,19 @@ Definition s_False : str := [70; 97; 108; 115; 101].
 Definition comma_sp : str := [44; 32].
 Definition colon_sp : str := [58; 32].
 
-Section Fmt.
-  (* str(HolographicValue) is a Python repr with object addresses: ORACLE (cases with holographic values are
-     compared with this text supplied by the harness, or marked out of model) *)
-  Variable holo_str : str -> str.
+(* ---- JSON/YAML-representable: only dict / list / str / number / bool / None (no AST object left) ---- *)
+Fixpoint native_j (v : jv) : bool :=
+  match v with
+  | JNull | JBool _ | JInt _ | JFloat _ | JStr _ => true
+  | JList l => forallb native_j l
+  | JMap m => forallb (fun kv => native_j (snd kv)) m
+  | JHolo _ | JZoneObj _ _ _ => false
+  end.
+Definition native_dict (d : list (str * jv)) : bool := forallb (fun kv => native_j (snd kv)) d.
 
-  (* _format_markdown_value *)
+  (* _format_markdown_value (eject.py).  Since repair 88905cd a holographic value is shown as its raw pattern (case 4
+     of format_markdown_value_classes, pinned in ProjFacts) and a nested META block as `k: v, k: v` (case 5; same
+     expression as the InlineMap case, cf. the header): no oracle for str(HolographicValue) is needed any more. *)
   Fixpoint fmt_md (v : value) : str :=
     match v with
     | VNull => s_None
@@ -105,7 +122,7 @@ Section Fmt.
     | VInt z => Z_to_dec z
     | VFloat r => r
     | VStr s => s
-    | VHolo r => holo_str r
+    | VHolo r => r
     | VZone c t f =>
         let tag := match t with Some s => s | None => [] end in
         let body := match c with
@@ -152,4 +169,3 @@ Section Fmt.
   (* the (key, text) pairs a markdown view shows, in order *)
   Definition md_pairs (ls : list mdline) : list (str * str) :=
     flat_map (fun l => match l with MBullet k t | MTop k t => [(k, t)] | _ => [] end) ls.
-End Fmt.
